@@ -57,7 +57,7 @@ def run(pid):
                     d[ln["line_number"]] = d.get(ln["line_number"], 0) + ln["count"]
                 fd = funcs.setdefault(rel, {})
                 for fu in f.get("functions", []):
-                    k = (fu["start_line"], fu.get("demangled_name", fu["name"]))
+                    k = (fu["start_line"], fu.get("end_line", fu["start_line"]), fu.get("demangled_name", fu["name"]))
                     fd[k] = fd.get(k, 0) + fu["execution_count"]
     return tail, lines, funcs
 
@@ -88,7 +88,9 @@ def report(pid):
         out.append("%-78s code lines %4d  instrumented %4d  executed %4d (%3d%%)" % (a, cl, inst, hit, 100 * hit // max(inst, 1)))
         # uncovered functions (short names, grouped by start line)
         byline = {}
-        for (sl, nm), c in funcs.get(a, {}).items():
+        for (sl, el, nm), c in funcs.get(a, {}).items():
+            # an inlined function has execution count 0 but executed body lines: called if any line of its body was executed
+            c += sum(v for ln, v in d.items() if sl < ln <= el)
             e = byline.setdefault(sl, [0, nm]); e[0] += c
         for sl in sorted(byline):
             if byline[sl][0] == 0:
